@@ -10,8 +10,10 @@ import (
 	"sort"
 	"strings"
 	"testing"
+	"time"
 
 	"jetverif/core"
+	"jetverif/jetrun"
 	"jetverif/mj"
 
 	"pgregory.net/rapid"
@@ -58,6 +60,9 @@ func c05Vars() map[string]mj.Recipe {
 		"ch":    {T: "chan int", Is: []int64{1, 0, 2}},
 		"chs":   {T: "chan string", Ss: []string{"u", ""}},
 		"rch":   {T: "<-chan int", Is: []int64{6, 0}},
+		// functions declared to return interface{}: what counts is the value inside
+		"fz0": {T: "ifunc", I: 0}, "fz1": {T: "ifunc", I: 1}, "fz2": {T: "ifunc", I: 2}, "fz3": {T: "ifunc", I: 3}, "fz4": {T: "ifunc", I: 4},
+		"fz5": {T: "ifunc", I: 5}, "fz6": {T: "ifunc", I: 6}, "fz7": {T: "ifunc", I: 7}, "fz8": {T: "ifunc", I: 8}, "fz9": {T: "ifunc", I: 9},
 		"long":  {T: "iota", I: 259},
 		"longa": {T: "iota-array"},
 		"rg":    {T: "ranger", Ss: []string{"r0", "r1"}},
@@ -112,7 +117,14 @@ var c05Subjects = []c05Subject{
 var c05CondVars = []string{"bt", "bf", "i0", "i1", "i8", "u0", "u3", "f0", "f1", "f32", "s0", "s1", "nl", "np", "pu", "us", "nm", "em", "ns", "es", "xs", "e_xs"}
 
 func (g *c05Gen) cond(scope []string) *mj.Expr {
-	switch k := g.n(0, 11, "condkind"); {
+	switch k := g.n(0, 12, "condkind"); {
+	case k == 12:
+		f := fmt.Sprintf("fz%d", g.n(0, 7, "ifuncCond"))
+		g.labels["cond:result-of-a-function-returning-interface{}"] = true
+		if g.n(0, 3, "ifuncNot") == 0 {
+			return mj.Not(mj.Call(f))
+		}
+		return mj.Call(f)
 	case k <= 4:
 		v := c05CondVars[g.n(0, len(c05CondVars)-1, "condvar")]
 		g.labels["cond:"+v] = true
@@ -305,6 +317,25 @@ func (g *c05Gen) stmts(depth int, scope []string) []*mj.Node {
 	for k := g.n(0, 2, "nstmts"); k > 0; k-- {
 		switch g.n(0, 3, "stmt") {
 		case 0:
+			if !g.inMulti && g.n(0, 11, "intsTwice") == 0 {
+				// the value ints() returns is a cursor: a second range over the same value finds it used up
+				id := g.nextTag("ir")
+				from := g.n(-1, 2, "irFrom")
+				out = append(out, mj.Let(id, mj.Call("ints", mj.Num(float64(from)), mj.Num(float64(from+g.n(1, 3, "irLen"))))))
+				first := &mj.Node{K: "range", E: mj.Var(id), Body: []*mj.Node{mj.Text("["), mj.Print(mj.Dot()), mj.Text("]")}}
+				// (how many elements a loop that is left early has taken from the cursor is left open)
+				second := &mj.Node{K: "range", E: mj.Var(id), Names: []string{"k" + id, "v" + id}, Decl: true, Body: []*mj.Node{mj.Text("<"), mj.Print(mj.Var("k" + id)), mj.Text("="), mj.Print(mj.Var("v" + id)), mj.Text(">")}, HasElse: true, Else: []*mj.Node{mj.Text("(used up)")}}
+				out = append(out, first, mj.Text("|"), second)
+				g.labels["ints-value-ranged-twice"] = true
+				continue
+			}
+			if g.n(0, 11, "ifuncSubject") == 0 {
+				// a rangeable value handed back by a function declared to return interface{}
+				f := []string{"fz8", "fz9"}[g.n(0, 1, "ifuncRange")]
+				out = append(out, &mj.Node{K: "range", E: mj.Call(f), Names: []string{"ki", "vi"}, Decl: true, Body: []*mj.Node{mj.Text("["), mj.Print(mj.Var("ki")), mj.Text(":"), mj.Print(mj.Var("vi")), mj.Text("]")}, HasElse: true, Else: []*mj.Node{mj.Text("(none)")}})
+				g.labels["range-over-result-of-a-function-returning-interface{}"] = true
+				continue
+			}
 			if !g.inMulti && g.n(0, 9, "longCollection") == 0 {
 				// positions beyond the first few hundred of a long slice / array: index and element still belong together
 				subj := []string{"long", "longa"}[g.n(0, 1, "longSubject")]
@@ -439,7 +470,18 @@ func judgeC05(c c05Case) (v core.Verdict) {
 		v.Discard = "model:" + discard
 		return
 	}
-	got, _, src := mj.EngineRun(c.Prog, nil)
+	// a loop that never ends is a violation too: the engine runs on a goroutine of its own and gets a minute for
+	// what takes microseconds (after a violation the run is over, so the goroutine left behind does not matter)
+	var got jetrun.Outcome
+	var src map[string]string
+	finished := make(chan struct{})
+	go func() { defer close(finished); got, _, src = mj.EngineRun(c.Prog, nil) }()
+	select {
+	case <-finished:
+	case <-time.After(time.Minute):
+		v.Failf("template %q: Execute has not returned after a minute (the reference interpreter renders %q)", c.Src, want.Out)
+		return
+	}
 	sh := map[string]bool{}
 	c05Shape(c.Prog.Files[0].Body, 0, sh)
 	for k := range sh {
